@@ -91,6 +91,8 @@ int main(int argc, char **argv) {
     else if (strcmp(dom, "p08") == 0) dom_p08();
     else if (strcmp(dom, "p09") == 0) { dom_p09(); dir_p09(); dir_p09b(); dir_p09c(); }
     else if (strcmp(dom, "p09u") == 0) dom_p09u();
+    else if (strcmp(dom, "p09ubig") == 0) dom_p09ubig();
+    else if (strcmp(dom, "p06big") == 0) dir_p06big();
     else if (strcmp(dom, "p21") == 0) dom_p21();
     else if (strcmp(dom, "pline") == 0) dom_pline();
     else { fprintf(stderr, "unknown domain %s\n", dom); return 2; }
